@@ -845,7 +845,7 @@ impl Check for C18Check {
         }
     }
     fn rule(&self) -> &'static str {
-        "case = endpoint configuration (auth token set/unset, control_requires_auth, debug enabled/disabled, production/debug control mode, stub reload reply ok/error) x history of 70 (quick) / 140 (thorough) operations: request lines from nine clients (no credential, wrong/case-variant/prefix tokens, current admin token, pairing tokens claimed at viewer/operator/engineer/admin, a token that gets revoked, the previous admin token after rotation) over all 53 dispatcher request types with seeded valid and invalid params, 15% mangled lines (unknown / upper-case / padded / NUL-suffixed type, garbled byte, truncated, object twice, duplicated keys, 100-300 kB field, 200-20000 deep nesting, non-request JSON, negative/float id, numeric type, array auth, whitespace wrapped), pair.start/claim/revoke, control.auth_token rotation/removal, control.debug_enabled / control.mode flips, clock jumps (seconds, exactly to / one past a token's expiry, 31 days); later additions: boundary numerics (2^31, 2^32, 2^53+1, u64::MAX) in numeric parameters of valid requests; crash + restart of the pairing store from its file after every acknowledged pair.revoke; distinct non-trivial = distinct (request type, credential kind, token configured, debug enabled, line form) combinations actually sent"
+        "case = endpoint configuration (auth token set/unset, control_requires_auth, debug enabled/disabled, production/debug control mode, stub reload reply ok/error) x history of 70 (quick) / 140 (thorough) operations: request lines from nine clients (no credential, wrong/case-variant/prefix tokens, current admin token, pairing tokens claimed at viewer/operator/engineer/admin, a token that gets revoked, the previous admin token after rotation) over all 53 dispatcher request types with seeded valid and invalid params, 15% mangled lines (unknown / upper-case / padded / NUL-suffixed type, garbled byte, truncated, object twice, duplicated keys, 100-300 kB field, 200-20000 deep nesting, non-request JSON, negative/float id, numeric type, array auth, whitespace wrapped), pair.start/claim/revoke, control.auth_token rotation/removal, control.debug_enabled / control.mode flips, clock jumps (seconds, exactly to / one past a token's expiry, 31 days); later additions: boundary numerics (2^31, 2^32, 2^53+1, u64::MAX) in numeric parameters of valid requests; crash + restart of the pairing store from its file after every acknowledged pair.revoke; round 3: pairing-store restart check after every clock jump, config.set with several gate keys at once, acknowledged debug flag / mode read back; distinct non-trivial = distinct (request type, credential kind, token configured, debug enabled, line form) combinations actually sent"
     }
     fn assumptions(&self) -> Vec<&'static str> {
         vec![
